@@ -345,6 +345,34 @@ func runCheck(o *checkOpts) int {
 	}
 	wg.Wait()
 
+	// a function whose loop invariants / call preconditions / frame are not established proves nothing else: every
+	// other obligation of that function was discharged *assuming* them
+	tainted := map[string]string{}
+	for _, ob := range allObls {
+		switch ob.Class {
+		case "invariant-init", "invariant-pres", "requires", "frame", "typeinv":
+			okStatus := "unsat"
+			if ob.Status != okStatus {
+				if kf := known.match(o.prop, ob.Name); kf != nil && kf.Status == "open" {
+					continue // recorded finding: reported on its own line, the rest of the function stays claimed
+				}
+				if _, has := tainted[ob.Func]; !has {
+					tainted[ob.Func] = ob.Name
+				}
+			}
+		}
+	}
+	for _, ob := range allObls {
+		if why, bad := tainted[ob.Func]; bad && !ob.Cover && ob.Status == "unsat" {
+			switch ob.Class {
+			case "invariant-init", "invariant-pres", "requires", "frame", "typeinv":
+			default:
+				ob.Status = "unsupported"
+				ob.Output = "discharged only under an assumption that is itself not established: " + why
+			}
+		}
+	}
+
 	// verdicts
 	expectedPath := filepath.Join(o.verif, "expected", o.prop+".json")
 	expected := loadExpected(expectedPath)
